@@ -12,6 +12,8 @@ use std::collections::BTreeMap;
 mod extra;
 #[path = "c03/hist.rs"]
 mod hist;
+#[path = "c03/sized.rs"]
+mod sized;
 
 // ---------------------------------------------------------------- ordered JSON AST (numbers = token text)
 #[derive(Clone, Debug, PartialEq)]
@@ -801,8 +803,19 @@ fn store_oracle(docs: &[&str], seed: u64, res: &mut RunResult) {
                 return;
             }
             Ok(Err(e)) => {
+                // nothing about a frame may make the log refuse it (the disk is healthy here): the session / task emitters
+                // publish and record a frame before this append and drop its result
                 res.bump("store.append_refused");
-                res.notes.push(format!("store oracle: append refused: {e}"));
+                if !res.oracle_violations.iter().any(|v| v.class == "append_refuses_frame") {
+                    let ty = serde_json::to_value(&ev).ok().and_then(|v| v.get("type").and_then(|t| t.as_str()).map(|s| s.to_string())).unwrap_or_default();
+                    res.oracle_violations.push(OracleViolation {
+                        case_id: i as i64,
+                        what: format!("EventLog::append refused a frame the codec reads and writes (type {ty}, a line of {} bytes) on a healthy disk: `{e}`", line.len()),
+                        class: "append_refuses_frame".into(),
+                        replay: json!({"frame": clip(&line), "type": ty, "line_bytes": line.len(), "error": e.to_string(), "seed": seed,
+                            "how": "append the frame to a new rip_log::EventLog: it must return Ok"}),
+                    });
+                }
                 continue;
             }
             Ok(Ok(())) => {}
@@ -1128,6 +1141,20 @@ fn main() {
         res.oracle_violations.extend(x.violations);
     }
 
+    // ---- (g) frames of every size through the real emit paths; (h) EventLog::append takes every frame
+    let mut sized_cases: Vec<(String, Value)> = vec![];
+    for mut x in [sized::sized_frames(a.seed, thorough), sized::append_ladder(a.seed, thorough)] {
+        res.oracle_checks += x.oracle_checks;
+        res.evaluations += x.evaluations;
+        for (k, v) in &x.distribution {
+            res.bump_by(&format!("sized.{k}"), *v);
+        }
+        res.bump_by("hist.frames_compared", x.frames_compared);
+        res.notes.extend(x.notes.iter().cloned());
+        res.oracle_violations.append(&mut x.violations);
+        sized_cases.append(&mut x.cases);
+    }
+
     // ---- (a) documents
     let mut cases: Vec<DocCase> = vec![];
     for (label, ev) in handmade().into_iter().chain(deep_frames()) {
@@ -1145,24 +1172,45 @@ fn main() {
     for line in &h.emitted_lines {
         cases.push(DocCase { emitted: true, some_null_skipped: false, doc_text: line.clone(), label: "real log line".into(), variant: "real".into(), wellformed: true });
     }
+    let mut huge_ix = 0usize;
     for v in &variants {
         let kind = v["kind"].as_str().unwrap_or("session").to_string();
         let tag = v["tag"].as_str().unwrap_or("?").to_string();
         let fields: Vec<Value> = v["fields"].as_array().cloned().unwrap_or_default();
-        for i in 0..per_variant {
-            let presence = match i % 5 {
+        for i in 0..per_variant + 1 {
+            // the extra round: one document per frame type whose first string / Value field is HUGE (70 KB .. 2.3 MB as written;
+            // all sizes in the thorough tier): codec round trip + store-level append; too large to ship into Coq as text
+            let huge = i == per_variant;
+            if huge && !fields.iter().any(|f| matches!(f["ty"]["k"].as_str(), Some("str") | Some("val"))) {
+                continue;
+            }
+            let presence = if huge { Presence::Full } else { match i % 5 {
                 0 => Presence::Full,
                 1 => Presence::Minimal,
                 2 => Presence::Nulls,
                 _ => Presence::Random,
-            };
-            let malformed = i >= 4 && r.chance(3, 5);
+            } };
+            let malformed = !huge && i >= 4 && r.chance(3, 5);
             let mut g = Gen { r: &mut r, presence, aliases: i % 4 == 3, messy_val: malformed, big: i == 5 };
-            let payload = g.fields(&fields);
+            let mut payload = g.fields(&fields);
+            if huge {
+                let sizes: &[usize] = if thorough { &[70_000, 300_000, 1_048_300, 1_100_000, 2_300_000, 4_300_000] } else { &[70_000, 1_100_000, 300_000, 2_300_000] };
+                let size = sizes[(huge_ix + a.seed as usize) % sizes.len()];
+                huge_ix += 1;
+                let unit = sized::UNITS[r.below(sized::UNITS.len() as u64) as usize].1;
+                let esc = serde_json::to_string(unit).map(|t| t.len() - 2).unwrap_or(1);
+                let key = fields.iter().find(|f| matches!(f["ty"]["k"].as_str(), Some("str") | Some("val"))).and_then(|f| f["key"].as_str()).unwrap_or("?").to_string();
+                if let Some(m) = payload.iter_mut().find(|m| m.0 == key) {
+                    m.1 = J::Str(unit.repeat((size / esc).max(1)));
+                }
+            }
             let mut doc = envelope(&mut r, &kind);
             doc.push(("type".into(), J::Str(tag.clone())));
             doc.extend(payload);
             let mut label = format!("{presence:?}");
+            if huge {
+                label = format!("{label}+huge_payload");
+            }
             if malformed {
                 let m = mutate(&mut r, &mut doc, v, variants.len());
                 label = format!("{label}+{m}");
@@ -1242,6 +1290,9 @@ fn main() {
                 }
                 if doc.is_none() && c.doc_text.chars().count() > 3 * TEXT_LIMIT {
                     res.bump("doc.text_only_case_too_large_skipped");
+                } else if c.doc_text.len() > 30_000 {
+                    // the sized frames go to the model in folded form (module sized), not as trees of code points
+                    res.bump("doc.huge_document_not_shipped_as_a_tree");
                 } else if !a.oracle_only() {
                     let id = w.push(coq_case(&c.doc_text, doc.as_ref(), &o));
                     if res.case_index.len() < 3000 {
@@ -1256,11 +1307,21 @@ fn main() {
         }
     }
     w.flush();
+    // the sized streams: their own case files (another check function), ids from 5 000 000
+    let mut wz = CaseWriter::new(&a.out.join("sized"), "Base.Json Model.Wire Model.WireSized Gen.Sinks", "check_sized", "sized_obs", 12).with_base(5_000_000);
+    if !a.oracle_only() {
+        for (term, replay) in &sized_cases {
+            let id = wz.push(term.clone());
+            res.case_index.insert(id.to_string(), replay.clone());
+        }
+        wz.flush();
+    }
+    res.bump_by("sized.cases_compared_with_the_model", sized_cases.len() as u64);
     let docs: Vec<&str> = cases.iter().map(|c| c.doc_text.as_str()).collect();
     store_oracle(&docs, a.seed, &mut res);
     res.bump_by("doc.accepted", accepted);
     res.distinct_nontrivial = distinct.count();
-    res.case_files = w.files.iter().map(|p| p.display().to_string()).collect();
+    res.case_files = w.files.iter().chain(wz.files.iter()).map(|p| p.display().to_string()).collect();
     res.write(&a.out);
     println!(
         "c03: {} documents ({} accepted), {} histories / {} frame-view comparisons, {} oracle violations, {} panics",
